@@ -22,7 +22,24 @@ import (
 	"github.com/lindb/lindb/kv/version"
 
 	"github.com/lindb/lindb/zzverif/internal/core"
+	"github.com/lindb/lindb/zzverif/internal/extract"
 )
+
+// writeBufferSize is pkg/bufioutil's defaultWriteBufferSize, re-read from the source of the tree
+// under test (VERIF_REPO, default /repo); Props/C15 `tie_bufio_writer` pins the value the
+// regenerated fact has. The `write-buffer-threshold` region is built around it.
+func writeBufferSize() int {
+	repo := os.Getenv("VERIF_REPO")
+	if repo == "" {
+		repo = "/repo"
+	}
+	if _, f, err := extract.ParseFile(repo, "pkg/bufioutil/bufio_writer.go"); err == nil {
+		if v, ok := extract.ConstInts(f)["defaultWriteBufferSize"]; ok && v > 0 && v <= 1<<24 {
+			return int(v)
+		}
+	}
+	return 256 * 1024
+}
 
 type area struct{}
 
@@ -135,6 +152,7 @@ type env struct {
 	dir   string
 	cache table.Cache
 	quick bool
+	wbuf  int // pkg/bufioutil defaultWriteBufferSize
 }
 
 func (e *env) path(fno int) string {
@@ -728,6 +746,39 @@ func (e *env) caseBig(width4 bool) {
 	e.probeTable(t, rd)
 }
 
+// caseWriteBuffer: values whose size sits on the builder's write-buffer size (B-1, B, B+1), added
+// and streamed, each after a few small values that are still sitting in the buffer.
+func (e *env) caseWriteBuffer() {
+	r := e.r
+	e.c.Branch("values-write-buffer-threshold")
+	small := func() val { return mkVal(r, 1+r.Intn(30)) }
+	big := func() val { return genVal(e.wbuf+r.Intn(3)-1, uint32(r.Int31())) }
+	k := uint32(r.Intn(100000))
+	next := func() uint32 { k += 1 + uint32(r.Intn(70000)); return k }
+	var items []item
+	for n := 2 + r.Intn(3); n > 0; n-- {
+		items = append(items, item{k: next(), chunks: []val{small()}})
+	}
+	items = append(items, item{k: next(), chunks: []val{big()}})
+	items = append(items, item{k: next(), stream: true, chunks: []val{small(), small()}})
+	items = append(items, item{k: next(), stream: true, chunks: []val{small(), big(), small()}})
+	items = append(items, item{k: next(), chunks: []val{small()}})
+	if r.Intn(2) == 0 {
+		items = append(items, item{k: next(), stream: true, chunks: []val{big()}})
+		items = append(items, item{k: next(), chunks: []val{small()}})
+	}
+	t := e.buildTable(1, items)
+	if t == nil || !t.closed {
+		return
+	}
+	rd := e.openTable(t)
+	if rd == nil {
+		return
+	}
+	e.c.NonTrivial()
+	e.probeTable(t, rd)
+}
+
 // overlappingTables builds n tables whose key sets overlap.
 func (e *env) overlappingTables(n int) []*built {
 	r := e.r
@@ -1069,6 +1120,7 @@ func (e *env) caseVersion() {
 			c.NonTrivial()
 			c.Branch("key-in-several-files")
 		}
+		// (the fault-injected variants follow after the plain ones, see below)
 		// FindReaders: a reader for every file found
 		var rds []table.Reader
 		p, _ = guard(func() { rds, err = snap.FindReaders(k) })
@@ -1107,6 +1159,108 @@ func (e *env) caseVersion() {
 							c.Fail("findreaders-misses-file", fmt.Sprintf("key %d lives in file %d but FindReaders gives no reader for it", k, t.fno))
 						}
 					}
+				}
+			}
+		}
+		// the same lookups while one table cannot be opened (one-shot failing open in the reader
+		// cache): an error, or everything — never a silent subset
+		if r.Intn(2) == 0 {
+			var foundNos []int
+			for n := range inFound {
+				foundNos = append(foundNos, n)
+			}
+			sort.Ints(foundNos)
+			fno := ts[r.Intn(len(ts))].fno
+			if len(foundNos) > 0 && r.Intn(4) > 0 {
+				fno = foundNos[r.Intn(len(foundNos))]
+			}
+			if inFound[fno] {
+				c.Branch("open-fault-on-covering-file")
+			} else {
+				c.Branch("open-fault-on-other-file")
+			}
+			name := version.Table(table.FileNumber(fno))
+			var holderNos []int
+			var wantVals []string
+			for _, t := range ts {
+				for _, en := range t.entries {
+					if en.k == k {
+						holderNos = append(holderNos, t.fno)
+						wantVals = append(wantVals, showVal(en.v))
+					}
+				}
+			}
+			sort.Strings(wantVals)
+			// FindReaders
+			var frs []table.Reader
+			var ferr error
+			p, _ := guard(func() {
+				e.cache.Evict(name)
+				table.VerifC02FailOpenOnce(name)
+				frs, ferr = snap.FindReaders(k)
+			})
+			table.VerifC02ClearOpenFaults()
+			fop := fmt.Sprintf("readersf %d %d", k, fno)
+			switch {
+			case p:
+				c.Op(fop, "panic")
+				c.Fail("panic", "FindReaders panicked with an unopenable table")
+			case ferr != nil:
+				c.Op(fop, "err")
+			default:
+				var fn []int
+				for _, rd := range frs {
+					var n int
+					fmt.Sscanf(rd.FileName(), "%d.sst", &n)
+					fn = append(fn, n)
+				}
+				sort.Ints(fn)
+				ws := make([]string, len(fn))
+				has := map[int]bool{}
+				for i, n := range fn {
+					ws[i] = strconv.Itoa(n)
+					has[n] = true
+				}
+				c.Op(fop, "r="+strings.Join(ws, ","))
+				for _, h := range holderNos {
+					if !has[h] {
+						c.Fail("lookup-silently-incomplete", fmt.Sprintf("FindReaders(%d) with table %d unopenable returned no error and %d readers, but the key lives in file %d", k, fno, len(frs), h))
+						break
+					}
+				}
+			}
+			// Load
+			var lvals [][]byte
+			var lerr error
+			p, _ = guard(func() {
+				e.cache.Evict(name)
+				table.VerifC02FailOpenOnce(name)
+				lerr = snap.Load(k, func(v []byte) error {
+					lvals = append(lvals, append([]byte(nil), v...))
+					return nil
+				})
+			})
+			table.VerifC02ClearOpenFaults()
+			lop := fmt.Sprintf("loadf %d %d", k, fno)
+			switch {
+			case p:
+				c.Op(lop, "panic")
+				c.Fail("panic", "Load panicked with an unopenable table")
+			case lerr != nil:
+				c.Op(lop, "err")
+			default:
+				ss := make([]string, len(lvals))
+				for i, v := range lvals {
+					ss[i] = showVal(v)
+				}
+				sort.Strings(ss)
+				out := fmt.Sprintf("n=%d", len(lvals))
+				for _, s := range ss {
+					out += " " + s
+				}
+				c.Op(lop, out)
+				if strings.Join(ss, " ") != strings.Join(wantVals, " ") {
+					c.Fail("lookup-silently-incomplete", fmt.Sprintf("Load(%d) with table %d unopenable returned no error and [%s], the files hold [%s]", k, fno, strings.Join(ss, " "), strings.Join(wantVals, " ")))
 				}
 			}
 		}
@@ -1242,6 +1396,7 @@ func (e *env) caseMalformed() {
 // ---------------------------------------------------------------- Run
 
 func (a area) Run(c *core.Ctx) error {
+	wbuf := writeBufferSize()
 	for i := 0; i < c.N; i++ {
 		if !c.Want(i) {
 			continue
@@ -1254,13 +1409,15 @@ func (a area) Run(c *core.Ctx) error {
 		if err := os.MkdirAll(filepath.Join(dir, family), 0o755); err != nil {
 			return err
 		}
-		e := &env{c: c, r: c.Rng(i), dir: dir, cache: table.NewCache(dir, time.Hour), quick: c.Tier != "thorough"}
+		e := &env{c: c, r: c.Rng(i), dir: dir, cache: table.NewCache(dir, time.Hour), quick: c.Tier != "thorough", wbuf: wbuf}
 		p, msg := guard(func() {
 			switch {
 			case !e.quick && i == 0:
 				e.caseBig(true)
 			case !e.quick && i%40 == 7:
 				e.caseBig(false)
+			case i == 1 || (!e.quick && i%100 == 51):
+				e.caseWriteBuffer()
 			default:
 				switch x := e.r.Intn(100); {
 				case x < 50:
@@ -1272,9 +1429,12 @@ func (a area) Run(c *core.Ctx) error {
 				case x < 92:
 					c.Branch("kind-version")
 					e.caseVersion()
-				default:
+				case x < 98:
 					c.Branch("kind-malformed")
 					e.caseMalformed()
+				default:
+					c.Branch("kind-write-buffer")
+					e.caseWriteBuffer()
 				}
 			}
 		})
